@@ -29,3 +29,4 @@ def run(repo, res, tier):
     multidict.rule_p1(repo, res)
     multidict.rule_p2(repo, res)
     multidict.rule_p10(repo, res)
+    _hk.rule_mut_default(repo, res, modules=("collections",))
